@@ -606,6 +606,48 @@ async fn recover_one(cfg: WCfg, state: State, keys: Vec<KeyId>) -> RecoveryObs {
     obs.probe_ok = probe(&p1, "probe write");
     if obs.probe_ok.is_ok() {
         for round in 0..2 {
+            if round == 1 {
+                // the second restart follows a kill: nothing was dumped, every index is rebuilt
+                // from its blob (a record accepted behind damaged bytes would surface here)
+                let _ = w.close().await;
+                for (n, _) in world::dir_listing(&dir) {
+                    if n.ends_with(".index") {
+                        let _ = std::fs::remove_file(dir.join(n));
+                    }
+                }
+                let before = w.cfg.clone();
+                match w.init(false).await {
+                    Ok(()) => {}
+                    Err(e) => {
+                        obs.probe_ok = Err(format!("restart after a kill following the recovery failed: {e:#}"));
+                        break;
+                    }
+                }
+                let _ = before;
+                ctl::quiesce().await;
+                if w.s().corrupted_blobs_count() > obs.corrupted_count {
+                    obs.probe_ok = Err(format!(
+                        "a blob that the recovery had accepted (or created) was quarantined by the next start: corrupted blobs {} -> {}",
+                        obs.corrupted_count,
+                        w.s().corrupted_blobs_count()
+                    ));
+                    break;
+                }
+                let ko = w.observe_key(9, &[]).await;
+                if !matches!(ko.read, RR::Found { .. }) {
+                    obs.probe_ok = Err(format!("probe record after a kill + restart: {:?}", ko.read));
+                    break;
+                }
+                for k in &keys {
+                    let ko = w.observe_key(*k, &[0]).await;
+                    if let Some(first) = obs.keys.get(k) {
+                        if ko.read != first.read {
+                            obs.probe_ok = Err(format!("k{k}: served {:?} right after the recovery, {:?} after a further kill + restart", first.read, ko.read));
+                        }
+                    }
+                }
+                continue;
+            }
             let r = w.apply(Op::Rst).await;
             if let Err(e) = probe(&r, &format!("restart {round} after recovery")) {
                 obs.probe_ok = Err(e);
